@@ -221,10 +221,11 @@ fn run_generate(
         }
         true
     } else {
-        GenerationCache::needs_regeneration(
+        GenerationCache::needs_regeneration_with_events(
             &config.output_path,
             &commands,
             discovered_structs,
+            analyzer.get_discovered_events(),
             &config,
         )
         .unwrap_or(true) // On error, assume regeneration is needed
@@ -273,7 +274,12 @@ fn run_generate(
     }
 
     // Save cache after successful generation
-    let cache = GenerationCache::new(&commands, discovered_structs, &config)?;
+    let cache = GenerationCache::with_events(
+        &commands,
+        discovered_structs,
+        analyzer.get_discovered_events(),
+        &config,
+    )?;
     if let Err(e) = cache.save(&config.output_path) {
         eprintln!("Warning: Failed to save generation cache: {}", e);
     }
